@@ -45,3 +45,22 @@ func verifH_C01_integer_format() {
 	verifAssert((err == nil) == want, "C01 integer format: accepted iff integral, inside the format's range and not below the minimum")
 	verifReach("end")
 }
+
+//verif:harness id=C01 tier=quick,thorough witness=end,accepted,rejected bounds="patterns written with ECMA \\u escapes (the dialect of OpenAPI patterns), hex digits in either case: ^\\u0061$, ^\\u006a+$, ^\\u006A+$, ^[\\u0061-\\u0063]\\u007a$, x\\u002eY against every ASCII string of 0-3 bytes: accepted iff the string matches the pattern the escapes spell out"
+func verifH_C01_pattern_escapes() {
+	pairs := [][2]string{
+		{`^\u0061$`, `^a$`}, {`^\u006a+$`, `^j+$`}, {`^\u006A+$`, `^j+$`}, {`^[\u0061-\u0063]\u007a$`, `^[a-c]z$`}, {`x\u002eY`, `x\.Y`},
+	}
+	p := pairs[verifChoose("pattern", len(pairs))]
+	s := &Schema{Type: &Types{"string"}, Pattern: p[0]}
+	v := verifASCII("v", 3)
+	err := s.VisitJSON(v)
+	want := (&Schema{Type: &Types{"string"}, Pattern: p[1]}).VisitJSON(v) == nil
+	if err == nil {
+		verifReach("accepted")
+	} else {
+		verifReach("rejected")
+	}
+	verifAssert((err == nil) == want, "C01 pattern escapes: a \\u escape stands for its character, whatever the case of its hex digits")
+	verifReach("end")
+}
